@@ -183,7 +183,7 @@ def run(chk):
         "oracle: the vectorised form of the user's function agrees with the pointwise form (what check_vectorised_function tests)",
         "numpy.array_split semantics as modelled in Model/C10_Batch.v (validated exhaustively on the grid each run)",
     ]
-    chk.static_props(["C10"])
+    chk.static_props(["C10"], ["C10_run"])
     tree, counters = translate(chk)
     today(chk, tree, counters)
     tree_term = "sk_now" if tree is not None else HAND_TREE
